@@ -1,9 +1,9 @@
 package main
 
 import (
-	"reflect"
 	"encoding/hex"
 	"errors"
+	"reflect"
 	"strconv"
 	"strings"
 
